@@ -331,8 +331,55 @@ def run(rep: Report, tier: str) -> None:
     if sorted(sch.get("persistent", [])) != ["P", "Q"]:
         rep.add(Finding("R13.6", "R13.6/persistent-source", ua.module.rel, ua.node.lineno, ua.qualname,
                         f"DatasetSchedule.persistent for a script with `P <- ...; Q <- ...` and two `:=` assignments is {sch.get('persistent')}: it must be exactly the persistent results"))
+    # ---- R13.4 (cont.): every scheduled input is loaded from the source the caller gave for IT: file, DataFrame, or an empty table ----
+    ls = P.func(f"{EXEC}.load_scheduled_datasets")
+    loaded: List[Tuple[str, str, Any]] = []
+    schedule = _EO({"insertion": {1: ["A", "B", "C", "ZZ"]}, "deletion": {}, "global_inputs": ["A", "B", "C"], "persistent": [], "all_outputs": []})
+    structs = {k: _EO({"components": {"Id_1": k}, "name": k}) for k in ("A", "B", "C")}
+    try:
+        Interp(P, externals={
+            "load_datapoints_duckdb": lambda **kw: loaded.append((kw.get("dataset_name"), "file" if kw.get("file_path") is not None else "empty", kw.get("file_path"))),
+            "register_dataframes": lambda conn, dfs, ins: loaded.extend((k, "dataframe", v) for k, v in dfs.items())}).call(ls, {
+                "conn": object(), "statement_num": 1, "ds_analysis": schedule, "path_dict": {"A": "/data/A.csv"}, "dataframe_dict": {"B": "<DataFrame B>"}, "input_datasets": structs})
+    except (_Un, _Rs) as e:
+        raise AnalysisError(f"R13.4: load_scheduled_datasets outside the evaluator's language: {e}")
+    rep.instance("R13.4", "load-sources/mixed-inputs", nontrivial=True, sample={"loaded": [(a, b) for a, b, _c in loaded]})
+    want_src = [("A", "file", "/data/A.csv"), ("B", "dataframe", "<DataFrame B>"), ("C", "empty", None)]
+    if sorted(loaded, key=lambda x: x[0]) != want_src:
+        rep.add(Finding("R13.4", "R13.4/load-sources/mixed-inputs", ls.module.rel, ls.node.lineno, ls.qualname,
+                        f"one run() given a CSV path for A, a DataFrame for B and nothing for C (all scheduled at statement 1): loaded as {[(a, b) for a, b, _c in sorted(loaded)]}; "
+                        f"each input must be loaded exactly once from its own source - A from its file, B from its DataFrame, C as an empty table - names that are not inputs are skipped"))
+
     # ---- R13.7 ------------------------------------------------------------------------------------------
     rep.rule("R13.7", "ds_structure analyses the AST it is given with a fresh analyser on every path; nothing cached on the AST")
+    # run(): the schedule that is executed is computed by ds_structure from the very AST that is transpiled (statement numbers = execution order)
+    frun = P.func("vtlengine.API.run")
+
+    def _def1(name: str) -> Optional[ast.AST]:
+        ds_ = [n.value for n in walk_no_nested(frun.node) if isinstance(n, (ast.Assign, ast.AnnAssign)) and n.value is not None
+               and any(isinstance(t, ast.Name) and t.id == name for t in (n.targets if isinstance(n, ast.Assign) else [n.target]))]
+        return ds_[0] if len(ds_) == 1 else None
+
+    def _res(e: Optional[ast.AST], depth: int = 0) -> Optional[ast.AST]:
+        while isinstance(e, ast.Name) and depth < 4:
+            d_ = _def1(e.id)
+            if d_ is None:
+                break
+            e, depth = d_, depth + 1
+        return e
+    eqc = [c for c in walk_no_nested(frun.node) if isinstance(c, ast.Call) and _callee_name(c) == "execute_queries"]
+    trc = [c for c in walk_no_nested(frun.node) if isinstance(c, ast.Call) and isinstance(c.func, ast.Attribute) and c.func.attr == "transpile" and c.args]
+    if len(eqc) != 1 or len(trc) != 1:
+        raise AnalysisError("run(): execute_queries(...) / <transpiler>.transpile(ast) not found exactly once")
+    sched = _res(next((k.value for k in eqc[0].keywords if k.arg == "ds_analysis"), None))
+    rep.instance("R13.7", "run/schedule-from-executed-ast", nontrivial=True, sample={"schedule": src(sched) if sched is not None else None, "transpiled": src(trc[0].args[0])})
+    ok_s = isinstance(sched, ast.Call) and isinstance(sched.func, ast.Attribute) and sched.func.attr == "ds_structure" and len(sched.args) == 1 \
+        and src(sched.args[0]) == src(trc[0].args[0])
+    if not ok_s:
+        rep.add(Finding("R13.7", "R13.7/run/schedule-from-executed-ast", frun.module.rel, eqc[0].lineno, frun.qualname,
+                        f"run() executes the statements of `{src(trc[0].args[0])}` (what it transpiles) but takes the load / release schedule from `{src(sched) if sched is not None else '?'}`: "
+                        f"the schedule must be DAGAnalyzer.ds_structure(<that same AST>) - an analyser that numbered the statements before they were re-ordered "
+                        f"schedules loads and releases at the wrong statements"))
     dsf = P.func("vtlengine.AST.DAG.DAGAnalyzer.ds_structure")
     gd = CFG(dsf.node)
     uses = [c for c in walk_no_nested(dsf.node) if isinstance(c, ast.Call) and isinstance(c.func, ast.Attribute) and c.func.attr == "_ds_usage_analysis"]
